@@ -99,3 +99,47 @@ fn c16_as_pathbuf_parts() {
     std::mem::forget(spec);
     std::mem::forget(p);
 }
+
+// ------------------------------------------------------------------------------------------------
+// C14 / C10: which directory entries does the family filter accept?
+use crate::writers::file_log_writer::verif_harness::{infix_filter_equals, infix_filter_numbers};
+
+fn family_spec() -> FileSpec {
+    mk_spec("b", None, Some("l"))
+}
+fn accepted(spec: &FileSpec, name: &str, filter: &InfixFilter, suffix: Option<&str>) -> bool {
+    let mut p = PathBuf::from("d");
+    p.push(name);
+    let files = [p];
+    let r = spec.filter_files(&files, filter, suffix);
+    let n = r.len();
+    std::mem::forget(r);
+    n == 1
+}
+
+// @verif prop=C14 tier=quick timeout=900 bounds=name"b<X>r<D>0001.l",X,D-any-printable-ASCII,Numbers-scheme
+// A directory entry b<X>r<D>0001.l is accepted as a rotated file of the family (basename b, suffix l, Numbers) only if X is the separator '_' and D is a digit: near misses with another byte in the separator position are foreign files and must not be listed (and hence never cleaned up).
+#[kani::proof]
+#[kani::unwind(14)]
+#[kani::stub(verif_support::reexp::catch_unwind, verif_support::stub_cu)]
+fn c14_filter_separator_and_digit() {
+    vs::link_all();
+    let x: u8 = kani::any();
+    let d: u8 = kani::any();
+    kani::assume(x >= 0x21 && x <= 0x7e && x != b'/' && x != b'.');
+    kani::assume(d >= 0x21 && d <= 0x7e && d != b'/' && d != b'.');
+    let nb = [b'b', x, b'r', d, b'0', b'0', b'0', b'1', b'.', b'l'];
+    let name = vs::str_from(&nb);
+    let spec = family_spec();
+    let acc = accepted(&spec, name, &infix_filter_numbers(), Some("l"));
+    let want = x == b'_' && d >= b'0' && d <= b'9';
+    if acc {
+        assert!(want);
+    }
+    if want {
+        assert!(acc);
+    }
+    kani::cover!(acc, "accepted");
+    kani::cover!(!acc && x == b'_', "rejected because of the infix");
+    std::mem::forget(spec);
+}
